@@ -134,8 +134,9 @@ public:
         m_evecs.setIdentity();
 
         // Scale matrix to improve stability
-        const Scalar scale = (std::max)(mat.diagonal().cwiseAbs().maxCoeff(),
-                                        mat.diagonal(-1).cwiseAbs().maxCoeff());
+        // (a 1x1 matrix has an empty sub-diagonal, on which maxCoeff() is not defined)
+        const Scalar subdiag_max = (m_n > 1) ? mat.diagonal(-1).cwiseAbs().maxCoeff() : Scalar(0);
+        const Scalar scale = (std::max)(mat.diagonal().cwiseAbs().maxCoeff(), subdiag_max);
         // If scale=0, mat is a zero matrix, so we can early stop
         if (scale < near_0)
         {
